@@ -42,10 +42,10 @@ class DummyDispatcher:
 
 
 class Config:
-    FIELDS = ("listeners", "limit", "timeout", "interval", "send_bytes", "lookahead", "sndbuf", "t0")
+    FIELDS = ("listeners", "limit", "timeout", "interval", "send_bytes", "lookahead", "sndbuf", "t0", "high_watermark")
 
     def __init__(self, listeners=1, limit=100, timeout=120, interval=30, send_bytes=1, lookahead=0,
-                 sndbuf=65536, t0=1000):
+                 sndbuf=65536, t0=1000, high_watermark=16777216):
         self.listeners = listeners
         self.limit = limit
         self.timeout = timeout
@@ -54,14 +54,16 @@ class Config:
         self.lookahead = lookahead
         self.sndbuf = sndbuf
         self.t0 = t0
+        # outputs of the histories stay below it (write_soon would block the single thread otherwise)
+        self.high_watermark = high_watermark
 
     def as_dict(self):
         return {k: getattr(self, k) for k in self.FIELDS}
 
     def init_line(self):
-        return "init %d %d %d %d %d %d %d %d %d" % (
+        return "init %d %d %d %d %d %d %d %d %d %d" % (
             self.listeners, self.limit, self.timeout, self.interval, self.send_bytes, self.lookahead,
-            self.sndbuf, self.t0, FD0)
+            self.sndbuf, self.high_watermark, self.t0, FD0)
 
 
 def sock_str(k):
@@ -125,7 +127,8 @@ class World:
             self.server = waitress.server.create_server(
                 app, map=self.map, _dispatcher=self.dispatcher, listen=listen,
                 connection_limit=cfg.limit, channel_timeout=cfg.timeout, cleanup_interval=cfg.interval,
-                send_bytes=cfg.send_bytes, channel_request_lookahead=cfg.lookahead)
+                send_bytes=cfg.send_bytes, channel_request_lookahead=cfg.lookahead,
+                outbuf_high_watermark=cfg.high_watermark)
         self.servers = [o for o in self.map.values() if isinstance(o, waitress.server.BaseWSGIServer)]
         self.multi = isinstance(self.server, waitress.server.MultiSocketServer)
 
@@ -293,7 +296,8 @@ def gen_config(rng, tier, idx):
     lookahead = rng.choice([0, 0, 0, 1, 2])
     sndbuf = rng.choice([1, 7, 60, 300, 65536])
     t0 = rng.choice([0, 1000, 1700000000])
-    return Config(listeners, limit, timeout, interval, send_bytes, lookahead, sndbuf, t0)
+    high_watermark = rng.choice([16777216, 16777216, 1000000])
+    return Config(listeners, limit, timeout, interval, send_bytes, lookahead, sndbuf, t0, high_watermark)
 
 
 def choose_event(rng, cfg, w, phase):
@@ -529,21 +533,22 @@ def pred_cases():
         out.append(("pred chan_readable %d %d %d %d %d" % (wc, cwf, n, la, tot), "1" if ch.readable() else "0"))
         out.append(("pred chan_writable %d %d %d" % (tot, wc, cwf), "1" if ch.writable() else "0"))
     # HTTPChannel.handle_write: flush selection and tail
-    for wc, cwf, n, tot, sb in itertools.product([0, 1], [0, 1], [0, 1, 2], [0, 1, 199, 200, 201, 18000], [1, 200, 18000]):
+    for wc, cwf, n, tot, sb, hw in itertools.product([0, 1], [0, 1], [0, 1, 2], [0, 1, 199, 200, 201, 18000], [1, 200, 18000],
+                                                     [0, 150, 199, 200, 16777216]):
         ch = HTTPChannel.__new__(HTTPChannel)
         rec = []
         ch.will_close = bool(wc)
         ch.close_when_flushed = bool(cwf)
         ch.requests = [object()] * n
         ch.total_outbufs_len = tot
-        ch.adj = types.SimpleNamespace(send_bytes=sb, log_socket_errors=False)
+        ch.adj = types.SimpleNamespace(send_bytes=sb, outbuf_high_watermark=hw, log_socket_errors=False)
         ch.logger = quiet
         ch._flush_some = lambda do_close=True, rec=rec: rec.append("some")
         ch._flush_some_if_lockable = lambda do_close=True, rec=rec: rec.append("lockable")
         ch.handle_close = lambda rec=rec: rec.append("close")
         ch.handle_write()
         flush = ([r for r in rec if r != "close"] or ["none"])[0]
-        out.append(("pred hw_flush %d %d %d" % (n, tot, sb), flush))
+        out.append(("pred hw_flush %d %d %d %d" % (n, tot, sb, hw), flush))
         out.append(("pred hw_after %d %d %d" % (cwf, wc, tot),
                     "%d%d%d" % (int(ch.close_when_flushed), int(ch.will_close), int("close" in rec))))
     # BaseWSGIServer.maintenance
